@@ -136,7 +136,7 @@ class CellCtx:
             def confirm(vals, bvals):
                 ok, _ = replay(vals, bvals)
                 return bool(ok)
-        res = smt.solve(ob, timeout_s=self.timeout_s, confirm=confirm)
+        res = smt.solve(ob, timeout_s=self.timeout_s, confirm=confirm, canary=canary)
         rec = {"name": name, "canary": canary, "status": res.status, "solver_s": round(res.solver_s, 4),
                "n_pairs": len(ob.pairs), "detail": res.detail, "key": key or name}
         if note:
@@ -177,7 +177,7 @@ class CellCtx:
             bvals = {k: bool(v) for k, v in res.bvalues.items()}
             rec["witness"] = vals
             rec["bwitness"] = bvals
-            if replay is not None:
+            if replay is not None and not (canary and "canary" in res.detail):
                 try:
                     ok, detail = replay(vals, bvals)
                 except Exception as e:  # noqa: BLE001 - real code may raise on the witness
@@ -238,6 +238,14 @@ class CellCtx:
         return status
 
     def canary(self, name, lhs, rhs, replay=None, assumptions=()):
+        la = lhs.a if hasattr(lhs, "a") else np.asarray(lhs, dtype=object)
+        ra = rhs.a if hasattr(rhs, "a") else np.asarray(rhs, dtype=object)
+        if la.shape == ra.shape and la.size and all(l.t == r.t for l, r in zip(la.reshape(-1), ra.reshape(-1))):
+            # the deliberately wrong oracle happens to coincide with the result (e.g. an identically zero output): use an oracle
+            # that cannot coincide, so the twin still tests reachability / consistency of the assumptions
+            rhs = ra + 1
+            replay = None
+            name = name + " [fallback: oracle + 1]"
         return self.equal(name, lhs, rhs, replay=replay, canary=True, assumptions=assumptions)
 
     def validated_against_impl(self, n=1):
@@ -478,6 +486,7 @@ def finish(prop, mod, args, seed, cells, results, t0):
             "outside_claim": info.get("outside", []),
             "interpreter": interp_tot, "solver": {k: (round(v, 3) if isinstance(v, float) else v) for k, v in solver_tot.items()},
             "inconclusive": len(inconclusive),
+            "max_query_s": max([rec.get("solver_s", 0.0) for r in results for rec in r["records"]] + [0.0]),
             "exhaustive": exhaustive,
             "notes": sorted(set(notes))[:20],
         },
